@@ -209,7 +209,7 @@ def evaluate(ctx, case, batch, chain):
     stores = [(rc.SKIND[m], A.path(m), []) for m in manifests]
     hx_fs = [(A.path(p), A.content(c)) for p, c in case["files"].items()]
     ob_fs = [(A.path(p), A.content(c)) for p, c in tree_b.items() if p in case["files"]]
-    ob_rows = [(A.codemod(r["codemod"]), [A.path(p) for p in r["changed"]], [A.path(p) for p in r["failed"]]) for r in rows_b_list]
+    ob_rows = [(A.codemod(r["codemod"]), [A.path(p) for p in r["changed"]], [A.path(p) for p in r["failed"]], [A.path(p) for p in rc.unfixed_paths(r)]) for r in rows_b_list]
     term = rc.c_hcase(False, [A.path(f) for f in files], hx_fs, [], cms, stores, W, rb["rc"], ob_fs, ob_rows)
     nontrivial = sum(1 for k in order if chain_rows.get(k) and chain_rows[k]["changed"]) >= 2
     return term, nontrivial
